@@ -13,8 +13,11 @@ let rec int_of_nat = function O -> 0 | S n -> 1 + int_of_nat n
 (* build mode of the harness variant whose output this run is compared with (set by the engine from prop.py's "env");
    the `mode` probes carry their build mode in the case line instead *)
 let env_flag name default = (try Sys.getenv name = "1" with Not_found -> default)
-let env_checks () = env_flag "VERIF_C05_CHECKS" true
-let env_safe () = env_flag "VERIF_C05_SAFE" false
+(* `ct` probes (constant evaluation) evaluate the guard of the inner operation with every level switched on and apply the
+   build mode named in the case line afterwards, through the extracted call_in_build *)
+let ct_force = ref false
+let env_checks () = !ct_force || env_flag "VERIF_C05_CHECKS" true
+let env_safe () = !ct_force || env_flag "VERIF_C05_SAFE" false
 (* is TETL_PRECONDITION_SAFE active in that build: the extracted macro selection of _contracts/check.hpp *)
 let safe_active () = precondition_safe_active (env_checks ()) (env_safe ())
 
@@ -45,6 +48,31 @@ let rec run_case op t =
   (* `strpos <flavour> ...`: the string probes of append / assign / constructor (str, pos, count) with pos > str.size() - the
      recorded defect region KF-C05-string-substr-pos-unchecked, under an op token of their own so that only they are excused *)
   | "strpos" -> let flavour = next_str t in run_case flavour t
+  | "ct" ->
+      (* `ct <checks> <safe> <cust|dflt> <a run-time case>`: the same call as part of a constant expression, in the build with
+         exactly these macros (third token: TETL_ENABLE_CUSTOM_ASSERT_HANDLER defined or the default handler - neither is
+         constexpr).  The guard and the documented precondition are the inner operation's; the outcome is the extracted
+         call_in_build ConstantEval / doc_call of ModelEval.v / SpecEval.v: compiles | ill-formed # <header> <check> | unchecked *)
+      let c = next_bool t in let s = next_bool t in let _ = next_str t in
+      let inner = next_str t in
+      let sub = (match t.rest with _ :: o :: _ -> o | _ -> "") in
+      (* sites written with TETL_PRECONDITION_SAFE: array<T, N>::operator[] (N > 0; array<T, 0> has an ordinary-level check too,
+         but its operator[] is SAFE as well) *)
+      let safe_level = (inner = "arr" || inner = "carr" || (inner = "arrfb" && (sub = "idx" || sub = "cidx"))) in
+      ct_force := true;
+      let (m, p) = (try run_case inner t with e -> ct_force := false; raise e) in
+      ct_force := false;
+      let starts pre str = String.length str >= String.length pre && String.sub str 0 (String.length pre) = pre in
+      if not (m = "ok" || starts "contract" m) then (m, "na") else begin
+        let guard = (m = "ok") in
+        let detail = (match String.index_opt m '#' with Some i -> String.sub m i (String.length m - i) | None -> "#") in
+        let model = (match call_in_build ConstantEval c s safe_level guard with
+          | Returns -> "compiles" | IllFormed -> "ill-formed " ^ detail | Unchecked -> "unchecked" | HandlerCalled -> "handler-called") in
+        let spec = if not (p = "ok" || starts "contract" p) then "na" else
+          (match doc_call true (if safe_level then doc_precondition_safe_active c s else doc_precondition_active c s) (p = "ok") with
+           | DocReturns -> "compiles" | DocRejected -> "ill-formed" | DocUnspecified -> "unchecked" | DocHandler -> "handler-called") in
+        (model, spec)
+      end
   | "mode" ->
       (* the macro selection of _contracts/check.hpp: the case line names the build (checks, safe) that runs it *)
       let c = next_bool t in let s = next_bool t in let sub = next_str t in let a = next_z t in
